@@ -110,6 +110,19 @@ ASSUMPTIONS = [
     'transaction at the moment it was stored.  Proposed recorded class import_raw_txid_of_version1 '
     '(fixes/C08-known-import-raw-txid.json): raw imports of version != 1 are stored without being sent only once the '
     'entry is recorded.  Byte-level serialisation is not in the Gallina model (raw bytes are an opaque field there)',
+    'round 4, reload of the INPUTS (oracle clause inputs_fidelity; multisig_script / unlock_keys written from BIP11 / '
+    'BIP16 / BIP141, not from the library): 2-of-3 multisig wallets (p2wsh, p2sh; p2sh-p2wsh once the class below is '
+    'recorded) whose BIP67-sorted key order differs from the cosigner order, next to the 2-of-2; every key spent by its '
+    'own transaction; for every sent transaction the wallet still holds, the inputs of Wallet.transaction(txid) (wallet '
+    'object after every operation; second Wallet object after a reopen and at the end) carry the address, script / '
+    'witness type, sequence, value, public keys IN ORDER and redeem script (after its first byte) of the object that '
+    'was sent (reload_input_differs), and the public keys / redeem script are those of the witness script / redeem '
+    'script / public key in the BYTES that were sent (reload_keys_not_of_script).  Proposed recorded class '
+    'reload_multisig_threshold (fixes/C08-known-reload-multisig-threshold.json): from_txid does not pass sigs_required, '
+    'a reloaded p2wsh / p2sh-p2wsh multisig input says 1-of-n, and a reloaded p2sh-p2wsh transaction serialises with '
+    'a scriptSig committing to the 1-of-n script: the number of required signatures is compared, and p2sh-p2wsh '
+    'multisig wallets are generated, only once the entry is recorded (class predicate threshold_only_diff on the '
+    'bytes).  Input scripts and keys are not in the Gallina model',
     'accounts on the second network are always named with their account id (balance(network=n) without account_id '
     'resolves the account from the key table; not modelled); transactions_update / scan need a provider with '
     'gettransactions and are not exercised; mixed witness types in one wallet are not exercised',
@@ -129,7 +142,11 @@ RULE = ('random histories over {new_key, get_key, new_account (own and second ne
         'unrelated; either wallet registers the overlapping outpoints first; spends, cross imports, deletes, '
         'reopens), and a fourth (round 3): watched addresses / public-only keys holding outputs, wallets made from an '
         'address / public key / account xpub, default account 1 or 2 with account 0 next to it, imports of version-2 '
-        'transactions with locktime as raw / object / dict followed by store / send / reopen; one evaluation = one observation of one wallet (first reading through a second object, default '
+        'transactions with locktime as raw / object / dict followed by store / send / reopen; a fifth (round 4): 2-of-3 '
+        'and 2-of-2 multisig wallets (p2wsh, p2sh, p2sh-p2wsh) with several funded keys, each spent by its own '
+        'transaction (sent at once / created, stored, sent later), read back input by input (keys in order, redeem '
+        'script, address, value) through the wallet object, a second object and after reopening, then deletes / '
+        'rescans / the same keys under a second name; one evaluation = one observation of one wallet (first reading through a second object, default '
         'readings, then balance / utxos of every group, key balances and key groups) compared with the model; a step '
         'is non-trivial when it changed balance, unspent set, per-key balances, stored transactions or a per-group '
         'reading of that wallet; distinct by (kind, history, step)')
@@ -137,6 +154,16 @@ RULE = ('random histories over {new_key, get_key, new_account (own and second ne
 KINDS_QUICK = ['hd'] * 5 + ['hdl', 'hdp', 'single', 'single', 'ms']
 KNOWN_CROSS = 'cross_account_output'
 KNOWN_STALE_TXID = 'import_raw_txid_of_version1'
+KNOWN_THRESHOLD = 'reload_multisig_threshold'
+_GATE = {}
+
+
+def threshold_gate():
+    """The number of required signatures of a reloaded multisig input is compared only once the recorded-finding class
+    reload_multisig_threshold is present (proposed in fixes/C08-known-reload-multisig-threshold.json)."""
+    if 'thr' not in _GATE:
+        _GATE['thr'] = known_status(KNOWN_THRESHOLD) == 'known'
+    return _GATE['thr']
 
 
 # ---------------------------------------------------------------- generator
@@ -416,7 +443,43 @@ def gen_watch(rng, i, cross=False, stale=False):
     return kind, ops
 
 
-def gen_histories(rng, tier, cross=False, shared_delete=False, stale=False):
+MS_KINDS = ['ms3', 'ms3l', 'ms3p', 'ms3', 'ms']
+
+
+def gen_multisig(rng, i, thr=False):
+    """Round 4: multisig wallets whose sorted key order differs from the cosigner order (2-of-3: p2wsh, p2sh,
+    p2sh-p2wsh; the 2-of-2 next to them).  Several keys receive outputs, each is spent by its own transaction (sent at
+    once, or created / stored first and sent later), the transactions are read back through the wallet object, a
+    second Wallet object and after reopening; then deletes / rescans / the same keys under a second name."""
+    kind = MS_KINDS[i % len(MS_KINDS)]
+    if kind == 'ms3p' and not thr:
+        # p2sh-p2wsh multisig transactions reload with a scriptSig that commits to the 1-of-n script (recorded-finding
+        # class reload_multisig_threshold): generated once that entry is recorded
+        kind = 'ms3'
+    nk = rng.randrange(1, 4)
+    ops = ['nk'] * nk
+    if rng.random() < 0.6:
+        ops.append('uu')
+    else:
+        ops += ['ua:%d:%d:%d:%d:%d' % (j, rng.choice(FUND_VALUES[2:]), rng.randrange(3), j, rng.choice([1, 3])) for j in range(nk + 1)]
+    if rng.random() < 0.3:
+        ops += ['nw:s', rng.choice(['uu', 'un'])]
+    spends = []
+    for j in rng.sample(range(nk + 1), rng.randrange(2, nk + 2) if nk > 0 else 1):
+        r = rng.random()
+        if r < 0.6:
+            spends.append('sk:%d:%s:%d:1:%d' % (j, rng.choice(['e', 'e', 'o1']), rng.choice([500, 900, 990]), rng.randrange(2)))
+        elif r < 0.8:
+            spends += ['sk:%d:e:%d:0:0' % (j, rng.choice([500, 900])), rng.choice(['ps:0', 'bc:0']), 'bc:0']
+        else:
+            spends.append('si:%d:%s:%d:1' % (rng.randrange(4), rng.choice(['e', 'o2']), rng.choice([500, 900])))
+    ops += spends
+    ops += rng.sample(['ro', 'ld:%d' % rng.randrange(6), 'de:%d' % rng.randrange(6), 'dl:0', 'uu', 'un', 'sw:e:1:0', 'ro',
+                       'st:e:%d:1:0' % rng.choice([300, 990]), 'im:0', 'bc:%d' % rng.randrange(3)], rng.randrange(1, 5))
+    return kind + rng.choice(['', '', '+f']), ops + ['ro']
+
+
+def gen_histories(rng, tier, cross=False, shared_delete=False, stale=False, thr=False):
     if tier == 'thorough':
         n, lo, hi, nd = 1000, 5, 100, 400
     else:
@@ -459,6 +522,11 @@ def gen_histories(rng, tier, cross=False, shared_delete=False, stale=False):
     # a version-2 transaction with a locktime, made elsewhere, imported as raw bytes, sent, read back
     hs.append(('hd', 'corpus21', ['uu', 'ir:e:300:2:77:r:b', 'ro']))
     hs.append(('hdl', 'corpus22', ['uu', 'ir:o1:400:2:0:o:s', 'bc:0', 'ro', 'ir:e:300:3:500000:d:b']))
+    # 2-of-3 multisig (keys sorted, BIP67): every key spent by its own transaction, read back by the wallet object, a
+    # second object and after reopening
+    hs.append(('ms3', 'corpus23', ['nk', 'nk', 'uu', 'sk:0:e:900:1:1', 'sk:1:e:900:1:1', 'sk:2:o0:500:1:1', 'ro']))
+    hs.append(('ms3p' if thr else 'ms3', 'corpus24', ['nk', 'ua:0:70000:0:0:3', 'ua:1:2500000:0:1:3', 'sk:0:e:900:0:0', 'sk:1:e:900:1:0', 'bc:0', 'ro']))
+    hs.append(('ms3l+f', 'corpus25', ['nk', 'uu', 'sk:1:e:900:1:1', 'st:e:500:1:0', 'ro', 'de:0']))
     for i in range(n):
         kind = KINDS_QUICK[i % len(KINDS_QUICK)]
         # accounts exist for the HD kinds only (new_account needs a BIP32 master key with an account level)
@@ -489,6 +557,9 @@ def gen_histories(rng, tier, cross=False, shared_delete=False, stale=False):
         if i % 5 == 4:
             ops = quieten(rng, ops, 0.3)
         hs.append((kindf, 'k%d_%d' % (rng.getrandbits(32), i), ops))
+    for i in range(nd // 2 + 2):
+        kindf, ops = gen_multisig(rng, i, thr)
+        hs.append((kindf, 'm%d_%d' % (rng.getrandbits(32), i), ops))
     return hs
 
 
@@ -704,6 +775,8 @@ class Oracle:
             bad += self.per_account(o, ut, spent_now)
         if 'ku' in o:
             bad += self.key_listing(o)
+        if 'ind' in o:
+            bad += self.inputs_fidelity(o)
         if 'txs2' in o:
             for a, b, what in (('bal', 'bal2', 'balance()'), ('utxos', 'utxos2', 'utxos()'), ('kb', 'kb2', 'key balances'),
                                ('txs', 'txs2', 'stored transactions')):
@@ -735,7 +808,11 @@ class Oracle:
                 pr = pushed.get(txid)
                 if pr is None:
                     continue
-                if txid in reser and reser[txid] != pr:
+                if txid in reser and reser[txid] != pr and threshold_only_diff(pr, reser[txid]):
+                    bad.append((KNOWN_THRESHOLD + ':scriptsig', 'sent transaction %s, reloaded from the database by a '
+                                'second Wallet object, serialises with a scriptSig that commits to the 1-of-n script '
+                                'instead of the m-of-n witness script of the bytes that were pushed' % txid[:12]))
+                elif txid in reser and reser[txid] != pr:
                     bad.append(('reload_reserialises_differently', 'sent transaction %s, reloaded from the database by a '
                                 'second Wallet object, serialises to different bytes than were pushed (%s...)'
                                 % (txid[:12], reser[txid][:24])))
@@ -779,10 +856,11 @@ def parse_raw(hx):
             take(2)
         start = pos[0]
         ins = []
+        sigs, wits = [], []
         for _ in range(varint()):
             prev = take(32)[::-1].hex()
             n = int.from_bytes(take(4), 'little')
-            take(varint())
+            sigs.append(take(varint()).hex())
             ins.append((prev, n, int.from_bytes(take(4), 'little')))
         outs = []
         for _ in range(varint()):
@@ -791,15 +869,179 @@ def parse_raw(hx):
         end = pos[0]
         if segwit:
             for _ in ins:
-                for _ in range(varint()):
-                    take(varint())
+                wits.append([take(varint()).hex() for _ in range(varint())])
         lock = take(4)
         if pos[0] != len(b):
             return None
         txid = hashlib.sha256(hashlib.sha256(b[:4] + b[start:end] + lock).digest()).digest()[::-1].hex()
-        return {'version': version, 'locktime': int.from_bytes(lock, 'little'), 'ins': ins, 'outs': outs, 'txid': txid}
+        return {'version': version, 'locktime': int.from_bytes(lock, 'little'), 'ins': ins, 'outs': outs, 'txid': txid,
+                'sigs': sigs, 'wits': wits}
     except Exception:
         return None
+
+
+def script_pushes(hx):
+    """The data items of a script that consists of pushes only (Bitcoin script: 0x00 empty, 0x01..0x4b that many
+    bytes, 0x4c / 0x4d with a 1 / 2 byte length); None when anything else occurs."""
+    b = bytes.fromhex(hx)
+    i, r = 0, []
+    while i < len(b):
+        c = b[i]
+        i += 1
+        if c == 0:
+            n = 0
+        elif c <= 0x4b:
+            n = c
+        elif c == 0x4c and i < len(b):
+            n = b[i]
+            i += 1
+        elif c == 0x4d and i + 1 < len(b):
+            n = int.from_bytes(b[i:i + 2], 'little')
+            i += 2
+        else:
+            return None
+        if i + n > len(b):
+            return None
+        r.append(b[i:i + n].hex())
+        i += n
+    return r
+
+
+def multisig_script(hx):
+    """OP_m <key> .. <key> OP_n OP_CHECKMULTISIG (BIP11 / BIP16): (m, [keys in script order]) or None."""
+    b = bytes.fromhex(hx)
+    if len(b) < 4 or b[-1] != 0xae or not (0x51 <= b[0] <= 0x60) or not (0x51 <= b[-2] <= 0x60):
+        return None
+    ks = script_pushes(b[1:-2].hex())
+    if ks is None or len(ks) != b[-2] - 0x50 or any(len(k) not in (66, 130) for k in ks) or b[0] > b[-2]:
+        return None
+    return b[0] - 0x50, ks
+
+
+def unlock_keys(p, i):
+    """What the BYTES of a signed transaction say about the keys of input i: the witness script (last witness item,
+    BIP141) or redeem script (last push of the scriptSig, BIP16) of a multisig input -> ('ms', m, keys in script
+    order, script); the public key that ends the witness / scriptSig of a single-key input -> ('pk', 1, [key], '')."""
+    items = p['wits'][i] if i < len(p['wits']) and p['wits'][i] else script_pushes(p['sigs'][i])
+    if not items or len(items) < 2:
+        return None
+    last = items[-1]
+    ms = multisig_script(last) if last else None
+    if ms is not None:
+        return ('ms', ms[0], ms[1], last)
+    if len(last) in (66, 130) and last[:2] in ('02', '03', '04'):
+        return ('pk', 1, [last], '')
+    return None
+
+
+def threshold_only_diff(sent_hex, reloaded_hex):
+    """Class predicate of reload_multisig_threshold on bytes, from the case alone: the two serialisations agree in
+    everything except the scriptSig of inputs whose witness ends in an m-of-n multisig script with m > 1, where the
+    sent bytes push 0x0020 || SHA256(witness script) (BIP141 P2SH-P2WSH) and the reloaded object pushes 0x0020 ||
+    SHA256(the same script with OP_m replaced by OP_1)."""
+    import hashlib
+    a, b = parse_raw(sent_hex), parse_raw(reloaded_hex)
+    if a is None or b is None or any(a[k] != b[k] for k in ('version', 'locktime', 'ins', 'outs', 'wits')):
+        return False
+    if len(a['sigs']) != len(b['sigs']) or a['sigs'] == b['sigs']:
+        return False
+    for n, (x, y) in enumerate(zip(a['sigs'], b['sigs'])):
+        if x == y:
+            continue
+        ws = a['wits'][n][-1] if n < len(a['wits']) and a['wits'][n] else ''
+        ms = multisig_script(ws) if ws else None
+        if ms is None or ms[0] < 2:
+            return False
+        if x != '220020' + hashlib.sha256(bytes.fromhex(ws)).hexdigest() or \
+                y != '220020' + hashlib.sha256(bytes.fromhex('51' + ws[2:])).hexdigest():
+            return False
+    return True
+
+
+def parse_ind(s):
+    """txid -> [(index, address, script type, witness type, sequence, value, sigs required, [keys], redeem script)]"""
+    res = {}
+    for tok in (s or '').split(','):
+        if not tok:
+            continue
+        txid, _, body = tok.partition('~')
+        ins = []
+        for x in (body.split(';') if body != '-' else []):
+            a = x.split('/')
+            ins.append((int(a[0]), a[1], a[2], a[3], int(a[4]), int(a[5]), int(a[6]),
+                        [] if a[7] == '-' else a[7].split('.'), a[8]))
+        res[txid] = ins
+    return res
+
+
+IND_NAMES = ('index', 'address', 'script type', 'witness type', 'sequence', 'value', 'signatures required', 'public keys',
+             'redeem script')
+
+
+def inputs_fidelity(self, o):
+    """Round 4, "stored transactions reload with the same inputs": for every transaction the wallet has sent and still
+    holds, the inputs of the object returned by transaction(txid) (wallet object; second Wallet object) are the inputs
+    of the object that was sent (address, script type, witness type, sequence, value, public keys IN ORDER, redeem
+    script), and the public keys / redeem script are those the sent BYTES carry (witness script / redeem script /
+    public key of the input, read by parse_raw, not by the library).  The number of required signatures (field and
+    first byte of the redeem script) is compared only while the class reload_multisig_threshold is recorded."""
+    bad = []
+    sent = parse_ind(o.get('ind_sent'))
+    gate = threshold_gate()
+    for field, who in (('ind', 'the wallet object'), ('ind2', 'a second Wallet object')):
+        if field not in o:
+            continue
+        views = parse_ind(o[field])
+        for txid in sorted(self.sent_view):
+            v = views.get(txid)
+            if v is None:
+                continue
+            s = sent.get(txid)
+            if s is not None:
+                if len(s) != len(v):
+                    bad.append(('reload_input_differs', 'sent transaction %s had %d inputs, reloaded through %s it has %d'
+                                % (txid[:12], len(s), who, len(v))))
+                    continue
+                for a, b in zip(s, v):
+                    for j in (0, 1, 2, 3, 4, 5, 7):
+                        if a[j] != b[j]:
+                            bad.append(('reload_input_differs', 'input %d of sent transaction %s: %s was %s, reloaded '
+                                        'through %s it is %s' % (a[0], txid[:12], IND_NAMES[j], str(a[j])[:220], who, str(b[j])[:220])))
+                            break
+                    else:
+                        # (a redeem / witness script is part of script-hash inputs only: for single-key inputs the
+                        # attribute holds the script code used while signing and is not compared)
+                        if multisig_script(a[8]) is None if a[8] != '-' else multisig_script(b[8]) is None if b[8] != '-' else True:
+                            continue
+                        if a[8][2:] != b[8][2:]:
+                            bad.append(('reload_input_differs', 'input %d of sent transaction %s: redeem script was %s, '
+                                        'reloaded through %s it is %s' % (a[0], txid[:12], a[8][:80], who, b[8][:80])))
+                        elif gate and (a[6] != b[6] or a[8] != b[8]):
+                            bad.append((KNOWN_THRESHOLD, 'input %d of sent transaction %s required %d signatures (redeem '
+                                        'script %s..), reloaded through %s it requires %d (redeem script %s..)'
+                                        % (a[0], txid[:12], a[6], a[8][:8], who, b[6], b[8][:8])))
+            raw = self.sent_view[txid][2]
+            p = parse_raw(raw) if raw and raw != '-' else None
+            if p is None or len(p['ins']) != len(v):
+                continue
+            for n, b in enumerate(v):
+                uk = unlock_keys(p, n)
+                if uk is None:
+                    continue
+                if b[7] != uk[2]:
+                    bad.append(('reload_keys_not_of_script', 'input %d of sent transaction %s, reloaded through %s, lists the '
+                                'public keys %s; the %s in the bytes that were sent has %s'
+                                % (n, txid[:12], who, '.'.join(k[:10] for k in b[7]) or '-',
+                                   'witness / redeem script' if uk[0] == 'ms' else 'signature data',
+                                   '.'.join(k[:10] for k in uk[2]))))
+                elif uk[0] == 'ms' and b[8] != '-' and b[8][2:] != uk[3][2:]:
+                    bad.append(('reload_keys_not_of_script', 'input %d of sent transaction %s, reloaded through %s, has redeem '
+                                'script %s..., the bytes that were sent carry %s...' % (n, txid[:12], who, b[8][:40], uk[3][:40])))
+                elif uk[0] == 'ms' and gate and (b[6] != uk[1] or (b[8] != '-' and b[8] != uk[3])):
+                    bad.append((KNOWN_THRESHOLD, 'input %d of sent transaction %s spends a %d-of-%d script; reloaded through '
+                                '%s it requires %d signatures (redeem script %s..)'
+                                % (n, txid[:12], uk[1], len(uk[2]), who, b[6], b[8][:8])))
+    return bad
 
 
 def key_listing(self, o):
@@ -849,7 +1091,11 @@ def fidelity(self, o, reser):
         if txid not in reser:
             continue
         r = reser[txid]
-        if r[1] != raw:
+        if r[1] != raw and threshold_only_diff(raw, r[1]):
+            bad.append((KNOWN_THRESHOLD + ':scriptsig', 'transaction %s, stored and reloaded by a second Wallet object, '
+                        'serialises with a scriptSig that commits to the 1-of-n script instead of the m-of-n witness '
+                        'script of its bytes' % txid[:12]))
+        elif r[1] != raw:
             bad.append(('stored_reserialises_differently', 'transaction %s (version %d, locktime %d), stored and reloaded '
                         'by a second Wallet object, serialises to %s... instead of %s...'
                         % (txid[:12], p['version'], p['locktime'], r[1][:16], raw[:16])))
@@ -975,6 +1221,7 @@ def per_account(self, o, ut, spent_now):
 
 Oracle.per_account = per_account
 Oracle.key_listing = key_listing
+Oracle.inputs_fidelity = inputs_fidelity
 Oracle.fidelity = fidelity
 Oracle.durable = durable
 Oracle.untouched = untouched
@@ -1211,7 +1458,7 @@ def main(tier, seed, replay=None):
         cross = any(e.get('status') == 'known' and e.get('class') == KNOWN_CROSS for e in load_known(PROP))
         hs = gen_histories(rng, tier if proof_ok else 'thorough', cross=cross,
                            shared_delete=known_status(KNOWN_SHARED_DELETE) in ('known', 'fixed'),
-                           stale=known_status(KNOWN_STALE_TXID) == 'known')
+                           stale=known_status(KNOWN_STALE_TXID) == 'known', thr=threshold_gate())
 
     known = load_known(PROP)
     failing_input_found = False
